@@ -214,6 +214,12 @@ def main():
         oracle_evals, oracle_fail = P["oracle"](cases, impl, dict(har=har, tuc=tuc, shim=shim, rng=rng, tier=tier,
                                                                  model=model, drv=drv))
 
+    extra_cov = {}
+    if P.get("extra_check"):
+        n_extra, bad_extra, extra_cov = P["extra_check"](dict(har=har, tuc=tuc, shim=shim, rng=rng, tier=tier))
+        oracle_evals += n_extra
+        oracle_fail += bad_extra
+
     # ---- 5. findings
     findings = [f for f in load_findings() if f.get("property") == prop]
     known_lines = []
@@ -247,7 +253,7 @@ def main():
                    "model": m and {"class": m[0], "stdout_hex": m[1].hex()},
                    "implementation": i and {"class": i[0], "stdout_hex": i[1].hex()},
                    "reproduce": c.shell(tuc) if c.entry == "main" else "lib entry %s" % c.entry,
-                   "theorem": P["theorems"]}
+                   "theorem": cinfo["theorems"]}
         # for the properties whose specification is an absolute function, model = spec is a
         # theorem, so an in-domain disagreement is a failing input of the property itself
         violations.append((why, payload, bool(P.get("absolute")) and in_dom))
@@ -259,7 +265,7 @@ def main():
     if not ok_coq:
         violations.append(("proof / pin / hygiene check failed",
                            {"property": prop, "kind": "proof", "file": cinfo.get("failed_file"),
-                            "log": cinfo["log"][-2000:], "theorem": P["theorems"]}, False))
+                            "log": cinfo["log"][-2000:], "theorem": cinfo["theorems"] or "Pins/%s.v" % prop}, False))
 
     # evidence
     samples = [dict(c.to_json(), model_class=model[c.id][0], model_stdout_hex=model[c.id][1].hex())
@@ -285,8 +291,7 @@ def main():
         "release_build_checked": bool(tuc_rel),
         "exhaustive": False,
     }
-    if P.get("extra_cov"):
-        cov.update(P["extra_cov"](cases, model))
+    cov.update(extra_cov)
     write_evidence(prop, tier, seed, cov, P["assumptions"], time.time() - t0, len(violations))
 
     for l in known_lines:
